@@ -157,6 +157,10 @@ func (m *MuxBroker) Run() {
 		select {
 		case p.ch <- stream:
 		default:
+			// A connection is already pending for this ID and nobody will
+			// ever pick this one up: close it so its dialer fails instead
+			// of waiting for an ack forever.
+			stream.Close()
 		}
 
 		// Wait for a timeout
